@@ -4,18 +4,19 @@
 package rt
 
 import (
+	"bytes"
 	"encoding/json"
 	"fmt"
-	"os/exec"
-	"gopkg.in/yaml.v3"
 	"go/ast"
 	"go/parser"
 	"go/token"
-	"strconv"
+	"gopkg.in/yaml.v3"
 	"math/rand"
 	"os"
+	"os/exec"
 	"path/filepath"
 	"sort"
+	"strconv"
 	"strings"
 	"sync"
 	"time"
@@ -30,7 +31,7 @@ type Unit struct {
 	Raw map[string]any
 }
 
-func (u *Unit) Docs() []any     { d, _ := u.Raw["docs"].([]any); return d }
+func (u *Unit) Docs() []any         { d, _ := u.Raw["docs"].([]any); return d }
 func (u *Unit) Str(k string) string { s, _ := u.Raw[k].(string); return s }
 
 // Opts reads the generator options of a unit (record "opts", all fields optional).
@@ -60,23 +61,23 @@ func (u *Unit) optsKey() string {
 }
 
 type Family struct {
-	Prop      string
-	Module    string // MC module that enumerates units and checks the design
-	More      []Extra // further MC modules whose units are judged as well (C02, C19, C17 reuse other families)
-	TraceMod  string // trace module (default Trace_RT)
-	Judge     string
-	PackSize  int
-	Select    func(units []*Unit, tier string, rng *rand.Rand) []*Unit
-	Calls     func(u *Unit, i int, text string) []work.Call // default: one JSON call per document
-	Level     string
-	Consts    bool // observe the string constants declared by each (singleton) program
+	Prop              string
+	Module            string  // MC module that enumerates units and checks the design
+	More              []Extra // further MC modules whose units are judged as well (C02, C19, C17 reuse other families)
+	TraceMod          string  // trace module (default Trace_RT)
+	Judge             string
+	PackSize          int
+	Select            func(units []*Unit, tier string, rng *rand.Rand) []*Unit
+	Calls             func(u *Unit, i int, text string) []work.Call // default: one JSON call per document
+	Level             string
+	Consts            bool // observe the string constants declared by each (singleton) program
 	ForceExtraImports bool // generate every unit with ExtraImports (YAML methods) regardless of its opts
-	JudgeBuild bool // a program that generates but does not compile is an event too (unit.nobuild predicts it)
-	Rule      string
-	ExtraCfg  func(tier string) string // extra CONSTANTS lines for the MC cfg
-	Assume    []string
-	Unbounded []ApaCheck // Apalache (SMT) checks of the same case analysis over unbounded integers
-	MixedPacks func(tier string) int // C01: number of programs that combine units of DIFFERENT families as sibling properties
+	JudgeBuild        bool // a program that generates but does not compile is an event too (unit.nobuild predicts it)
+	Rule              string
+	ExtraCfg          func(tier string) string // extra CONSTANTS lines for the MC cfg
+	Assume            []string
+	Unbounded         []ApaCheck            // Apalache (SMT) checks of the same case analysis over unbounded integers
+	MixedPacks        func(tier string) int // C01: number of programs that combine units of DIFFERENT families as sibling properties
 }
 
 // ApaCheck is one `apalache-mc check --length=0 --init=Init --inv=Inv` run with its expected outcome.
@@ -89,7 +90,7 @@ type Extra struct {
 	Module   string
 	ExtraCfg func(tier string) string
 	Frac     func(tier string) float64 // 0 or 1 = all units
-	Keep     func(u *Unit) bool         // if set: only these units
+	Keep     func(u *Unit) bool        // if set: only these units
 }
 
 type Report struct {
@@ -113,8 +114,40 @@ type obsEvent struct {
 	Built  bool           `json:"built"`
 	FmtOK  bool           `json:"fmtok"` // the generator formatted the file and gofmt leaves it unchanged
 	Res    []obsRes       `json:"res"`
-	GoType string         `json:"gotype"` // Go type of the field bound to property "x" ("" if none)
+	GoType string         `json:"gotype"`           // Go type of the field bound to property "x" ("" if none)
 	Consts []any          `json:"consts,omitempty"` // values of the string constants declared by the program
+
+	raw []byte // set by compact: the event as the line the trace specification reads
+}
+
+// compact replaces the decoded form of the event by its JSON text: a thorough run holds hundreds of thousands
+// of abstracted documents, which as nested maps take an order of magnitude more memory than as text.
+func (e *obsEvent) compact() error {
+	b, err := e.encode()
+	if err != nil {
+		return err
+	}
+	e.raw = b
+	e.Unit, e.Res, e.Consts = nil, nil, nil
+	return nil
+}
+
+func (e *obsEvent) encode() ([]byte, error) {
+	type plain obsEvent
+	var buf bytes.Buffer
+	enc := json.NewEncoder(&buf)
+	enc.SetEscapeHTML(false)
+	if err := enc.Encode((*plain)(e)); err != nil {
+		return nil, err
+	}
+	return bytes.TrimRight(buf.Bytes(), "\n"), nil
+}
+
+func (e *obsEvent) MarshalJSON() ([]byte, error) {
+	if e.raw != nil {
+		return e.raw, nil
+	}
+	return e.encode()
 }
 
 type obsRes struct {
@@ -127,21 +160,21 @@ type obsRes struct {
 
 // Exec holds what happened to each unit when run through the real code.
 type Exec struct {
-	Unit    *Unit
-	ProgID  string
-	Slot    int
-	Packed  bool
-	Schema  string // concrete schema text of the whole program
-	Texts   []string
-	GenErr  string
-	GenDead bool // the generator process crashed or hung on this unit
-	Built   bool
-	BuildErr string
-	Out     *work.RunOut
-	Consts  []string
+	Unit      *Unit
+	ProgID    string
+	Slot      int
+	Packed    bool
+	Schema    string // concrete schema text of the whole program
+	Texts     []string
+	GenErr    string
+	GenDead   bool // the generator process crashed or hung on this unit
+	Built     bool
+	BuildErr  string
+	Out       *work.RunOut
+	Consts    []string
 	HasConsts bool
-	Source  string // path of the emitted root.go
-	FmtBad  string // non-empty: the generator could not format the file / gofmt would change it
+	Source    string // path of the emitted root.go
+	FmtBad    string // non-empty: the generator could not format the file / gofmt would change it
 }
 
 func devSet(devs []string) string {
@@ -170,7 +203,7 @@ func Enumerate(f *Family, sc *work.Scratch, devs []string, tier string) ([]*Unit
 		wg.Add(1)
 		go func(i int, x Extra) {
 			defer wg.Done()
-			all[i+1].us, all[i+1].r, all[i+1].err = enumerateOne(x.Module, x.ExtraCfg, sc, devs, tier)
+			all[i+1].us, all[i+1].r, all[i+1].err = enumerateKeep(x.Module, x.ExtraCfg, sc, devs, tier, "", "", x.Keep)
 		}(i, x)
 	}
 	wg.Wait()
@@ -182,15 +215,6 @@ func Enumerate(f *Family, sc *work.Scratch, devs []string, tier string) ([]*Unit
 		us, r, err := all[i+1].us, all[i+1].r, all[i+1].err
 		if err != nil {
 			return nil, r, err
-		}
-		if x.Keep != nil {
-			var keep []*Unit
-			for _, u := range us {
-				if x.Keep(u) {
-					keep = append(keep, u)
-				}
-			}
-			us = keep
 		}
 		frac := 1.0
 		if x.Frac != nil {
@@ -233,6 +257,12 @@ func enumerateOne(module string, extraCfg func(string) string, sc *work.Scratch,
 // enumerateOneProps: like enumerateOne, in scratch directory tlc-mc-<module><suffix>, with extra cfg lines
 // (e.g. a PROPERTY for liveness).
 func enumerateOneProps(module string, extraCfg func(string) string, sc *work.Scratch, allDevs []string, tier, suffix, cfgTail string) ([]*Unit, *tlc.Result, error) {
+	return enumerateKeep(module, extraCfg, sc, allDevs, tier, suffix, cfgTail, nil)
+}
+
+// enumerateKeep: the units are decoded as TLC prints them; those that keep (if given) turns down are dropped
+// at once, so that a family which borrows a slice of another family's units never holds the rest.
+func enumerateKeep(module string, extraCfg func(string) string, sc *work.Scratch, allDevs []string, tier, suffix, cfgTail string, keep func(*Unit) bool) ([]*Unit, *tlc.Result, error) {
 	// the MC modules model the JSON path: deviations of the YAML path only ("Yaml...") do not apply
 	var devs []string
 	for _, d := range allDevs {
@@ -247,33 +277,43 @@ func enumerateOneProps(module string, extraCfg func(string) string, sc *work.Scr
 	}
 	cfg := "SPECIFICATION Spec\nCONSTANTS\n  UnitsFile = \"stdout\"\n  Devs = " + devSet(devs) + "\n" + extra +
 		"INVARIANTS DesignOK AsIsOK Emit\nCHECK_DEADLOCK FALSE\n" + cfgTail
+	var units []*Unit
+	var keys []string
+	var decErr error
+	onPrint := func(p string) bool {
+		if !strings.HasPrefix(p, "UNIT ") {
+			return false
+		}
+		var m map[string]any
+		dec := json.NewDecoder(strings.NewReader(p[5:]))
+		dec.UseNumber()
+		if err := dec.Decode(&m); err != nil {
+			if decErr == nil {
+				decErr = fmt.Errorf("bad unit line: %v", err)
+			}
+			return true
+		}
+		u := &Unit{Raw: m}
+		if keep != nil && !keep(u) {
+			return true
+		}
+		b, _ := json.Marshal(m)
+		units = append(units, u)
+		keys = append(keys, string(b))
+		return true
+	}
 	r, err := tlc.Run(tlc.Opts{Module: f.Module, Cfg: cfg, Dir: filepath.Join(sc.Dir, "tlc-mc-"+module+suffix), Workers: 16,
-		Timeout: 30 * time.Minute, HeapGB: 12})
+		Timeout: 30 * time.Minute, HeapGB: 8, OnPrint: onPrint})
 	if err != nil {
 		return nil, r, err
 	}
 	if r.InvViolated != "" || r.Failed {
 		return nil, r, fmt.Errorf("design-level check of %s failed (invariant %q)\n%s", f.Module, r.InvViolated, r.Tail)
 	}
-	var units []*Unit
-	for _, p := range r.Prints {
-		if !strings.HasPrefix(p, "UNIT ") {
-			continue
-		}
-		var m map[string]any
-		dec := json.NewDecoder(strings.NewReader(p[5:]))
-		dec.UseNumber()
-		if err := dec.Decode(&m); err != nil {
-			return nil, r, fmt.Errorf("bad unit line: %v", err)
-		}
-		units = append(units, &Unit{Raw: m})
+	if decErr != nil {
+		return nil, r, decErr
 	}
 	// TLC's workers print in nondeterministic order: sort by text so that seeds select the same units
-	keys := make([]string, len(units))
-	for i, u := range units {
-		b, _ := json.Marshal(u.Raw)
-		keys[i] = string(b)
-	}
 	idx := make([]int, len(units))
 	for i := range idx {
 		idx[i] = i
